@@ -42,3 +42,5 @@ def init : State := ()
 def step (_ : State) (line : String) : State × String := ((), handle line)
 
 end SophiaModel.Driver.C09
+
+def main : IO UInt32 := SophiaModel.Proto.runLoop SophiaModel.Driver.C09.init SophiaModel.Driver.C09.step
